@@ -173,7 +173,15 @@ func (i *Interface) checkCache(key string) record.Record {
 	if err == nil {
 		r, ok := cacheVal.(record.Record)
 		if ok {
-			return r
+			// Do not serve records that were deleted or have expired since they
+			// were cached, eg. by Delete() or SetAbsoluteExpiry(): fall back to
+			// the storage, which knows that the record is gone.
+			r.Lock()
+			valid := r.Meta().CheckValidity()
+			r.Unlock()
+			if valid {
+				return r
+			}
 		}
 	}
 	return nil
